@@ -40,6 +40,28 @@ const R_STUB: &[&str] = &["transparent probes around the real trigger, roller an
 pub fn props() -> Vec<PropCfg> {
     vec![
         PropCfg {
+            id: "C03",
+            profiles: &[("C03", 1)],
+            quick_runs: 20_000,
+            thorough_runs: 2_000_000,
+            level: "exploration",
+            rule: "one case = one seeded logger configuration (1-4 appenders with chains of scripted Accept/Neutral/Reject filters and real ThresholdFilters, per-call failing appenders, loggers over nested / look-alike names, duplicate attachments) and 1-3 threads logging records over 16 targets x 5 levels through the real Logger under one seeded schedule; after every log call the filters consulted, the deliveries and the errors handed to the error handler are compared with the per-attachment model; non-trivial = at least one appender error or one filter short-circuit (Accept/Reject) occurred; distinct = distinct event-log fingerprints",
+            assumptions: &["filter responses and appender failures are pure functions of (stub, record), hence independent of the interleaving", "no reconfiguration in this profile (Handle::set_config installs the default stderr handler, so the configured handler is only observable before the first swap)"],
+            real: &["log4rs::Logger (ArcSwap snapshot, ConfiguredLogger tree, Appender::append filter loop, error collection and hand-off)", "ThresholdFilter", "Config builder"],
+            stub: &["capturing appenders (optionally failing per call)", "scripted filters", "capturing error handler", "thread scheduler (baton)"],
+        },
+        PropCfg {
+            id: "C15",
+            profiles: &[("C15", 3), ("C15-reload", 1)],
+            quick_runs: 12_000,
+            thorough_runs: 500_000,
+            level: "exploration",
+            rule: "one case = 2-5 seeded configuration versions with version-tagged stubs, 1-3 logging threads and 1-3 reconfiguring threads (plus appenders that call set_config or log re-entrantly on selected records) on the real Logger/Handle under one seeded schedule with decision points between snapshot load, fan-out, set_max_level and store; per record: no mixture of versions and exact routing under its version; per history: register linearizability (Wing-Gong with memoisation, <= 16 reads / <= 9 writes); no panic, no deadlock; non-trivial = a swap overlapped a log call in time; distinct = distinct event-log fingerprints",
+            assumptions: &["interleavings at hook/seam granularity (log.loaded, set_config.built, set_config.stored, every stub entry)", "ArcSwap itself runs for real but only one thread at a time executes"],
+            real: &["log4rs::Logger / Handle::set_config / SharedLogger::new", "arc_swap::ArcSwap", "ConfigReloader::run (reloader profile)"],
+            stub: &["version-tagged capturing appenders and filters", "thread scheduler (baton)"],
+        },
+        PropCfg {
             id: "C04",
             profiles: &[("C04", 1)],
             quick_runs: 4000,
